@@ -20,7 +20,11 @@ Checks (tags):
   ortho-mean       the logged mean of an orthogonal region is bit-identical to (s0 + (s1 + (… + sn)))/width
   change-prong     `change` into a nested Composite region reports sub-state 0, into a Resumable or
                    Selectable one the resumable sub-state (else 0)
-  random-none      a random resolution logged no prong although a top-rank utility is positive
+  random-none      a random resolution selected no prong although a top-rank utility is positive
+  random-none-headless   KNOWN FINDING (N5 consequence): every utility() answer of the resolution is positive,
+                   but the only top-rank candidates are nested regions with an anonymous head, whose computed
+                   utility is 0 x sub = 0: nothing is selected, compoRequested = INVALID_PRONG (HFSM2_BREAK;
+                   nested: `utilities[INVALID_PRONG]` is read out of bounds)
   random-rank      the chosen prong does not have the top rank
   random-zero      the chosen prong has utility 0
   random-interval  (all candidates plain states) rnd*sum is outside the chosen sub-state's cumulative
@@ -236,6 +240,7 @@ class Parser:
         return from_bits(e[3]), i + 1
 
     def random_part(self, n, mode, i, issues, found, nested):
+        start = i
         ranks, i = self.ranks(n, i)
         top = max(ranks)
         us = []
@@ -246,16 +251,32 @@ class Parser:
             else:
                 us.append(0.0)
         g = self.expect(i, 'G')
-        e = self.expect(i + 1, 'LR', n.id)
         rnd = from_bits(g[1])
         r = Resolution()
-        r.head, r.kind, r.prong, r.values, r.ranks, r.rnd, r.nested = n.id, 'Z', e[2], us, ranks, rnd, nested
+        r.head, r.kind, r.values, r.ranks, r.rnd, r.nested = n.id, 'Z', us, ranks, rnd, nested
         r.leaf_only = all(self.t[c].kind == 'L' for c in n.subs)
         found.append(r)
-        if int(g[1], 16) != int(e[3], 16) and e[2] is not None:
-            issues.append(('rng-mismatch', 'region %d: generator produced %s, resolution logged %s' % (n.id, g[1], e[3])))
         contract = any(ranks[j] == top and us[j] > 0.0 for j in range(len(us))) and all(u >= 0.0 for u in us) \
             and 0.0 <= rnd < 1.0
+        logged = i + 1 < len(self.ev) and self.ev[i + 1][0] == 'LR' and self.ev[i + 1][1] == n.id
+        if not logged:
+            # C_::resolveRandom fell through to HFSM2_BREAK(): nothing is logged, INVALID_PRONG is returned
+            r.prong = None
+            if contract:
+                issues.append(('random-none', 'region %d: ranks %r utilities %r rnd %r: no prong selected'
+                               % (n.id, ranks, us, rnd)))
+            elif 0.0 <= rnd < 1.0 and all(e[2] > 0.0 for e in self.ev[start:i] if e[0] == 'U'):
+                issues.append(('random-none-headless',
+                               'region %d: every utility() answer is positive, yet the top-rank candidates\' computed '
+                               'utilities are %r (ranks %r): an anonymous head counts as utility 0; no prong selected, '
+                               'compoRequested = INVALID_PRONG' % (n.id, us, ranks)))
+            else:
+                issues.append(('skip', 'out of contract'))
+            return 0.0, i + 1
+        e = self.ev[i + 1]
+        r.prong = e[2]
+        if int(g[1], 16) != int(e[3], 16) and e[2] is not None:
+            issues.append(('rng-mismatch', 'region %d: generator produced %s, resolution logged %s' % (n.id, g[1], e[3])))
         if not contract:
             issues.append(('skip', 'out of contract'))
             return (us[e[2]] if e[2] is not None and e[2] < len(us) else 0.0), i + 2
@@ -340,6 +361,7 @@ def judge(hdr, ops, tree, config, rejections, stats):
         P = Parser(tree, ev, None)
         i = 0
         all_found = []
+        unparsed_lr = 0
         while i < len(ev):
             e = ev[i]
             if e[0] not in ('U', 'K', 'LU', 'LR', 'G'):
@@ -374,10 +396,12 @@ def judge(hdr, ops, tree, config, rejections, stats):
                        % (e[:3], ' '.join('%s:%s' % (x[0], x[1] if len(x) > 1 else '') for x in ev[i:i + 12])), idx)
                 # resynchronise after the next barrier
                 while i < len(ev) and ev[i][0] != 'B':
+                    if ev[i][0] == 'LR' and tree[ev[i][1]].kind == 'C':
+                        unparsed_lr += 1
                     i += 1
         # one random number per random region resolved
         n_rng = sum(1 for e in ev if e[0] == 'G')
-        n_res = sum(1 for e in ev if e[0] == 'LR' and tree[e[1]].kind == 'C')
+        n_res = sum(1 for r in all_found if r.kind == 'Z') + unparsed_lr
         stats.inc('checks_' + PID)
         if n_rng != n_res:
             reject('rng-count', '%d generator calls for %d random regions resolved in `%s`' % (n_rng, n_res, op.name), idx)
